@@ -2,6 +2,8 @@
   Props.C15 — pipe is sequential composition and sub-expressions are
   referentially transparent (DESIGN.md §7, C15).
 -/
+import Proofs.PipeCompose
+import Props.C04
 import Props.Tables
 import Jmes.Interp
 import Proofs.Printer
@@ -155,5 +157,48 @@ theorem C15_written_pipe_composes (ft : List FnEntry) (l r : PE N) (hw : Parser.
        | e => e) := by
   rw [C15_written_pipe_is_pipe_node l r hw]
   rfl
+
+/-! ### `A | B` for arbitrary expressions -/
+
+section AnyExpressions
+open Jmes.Parser Jmes.Spec
+
+/-- what `parseTokens` consumed: everything up to the end-of-input token -/
+theorem parse_consumes_all {As : List Token} {eA : Token} {a : Node N} (heA : eA.ty = .eof) (hnA : ∀ t ∈ As, t.ty ≠ .eof)
+    (h : parseTokens Spec.table (As ++ [eA]) = .ok a) :
+    Parser.R Spec.table (.expr 0 ⟨[], As ++ [eA]⟩) (.node a ⟨As.reverse, [eA]⟩) := by
+  obtain ⟨p1, t, rest, hR, hafter, ht⟩ := Parser.parseTokens_ok_iff_R Spec.table _ a h
+  have hs := Parser.R_grammatical Spec.table hR
+  simp only [Parser.Sound] at hs
+  obtain ⟨seg, hseg, _, _⟩ := hs
+  have he := hseg.after
+  rw [hafter] at he
+  obtain ⟨rfl, rfl⟩ := eof_last he.symm hnA ht
+  have ht' : t = eA := by simpa using he.symm
+  subst ht'
+  have : p1 = ⟨seg.reverse, [t]⟩ := by
+    cases p1 with
+    | mk b' a' => simp only at hafter; rw [hafter]; simpa using hseg.before
+  rw [this] at hR
+  exact hR
+
+/-- **Pipe is sequential composition, for ARBITRARY expressions** (token level, table regenerated from
+    /repo): if `A` compiles to `a` and `B` compiles to `b`, then `A | B` compiles, and on every document it
+    evaluates to `b` applied to the result of `a` — an error (or a panic) exactly when one of the two
+    steps is.  (The AST is `Pipe a b` up to the re-association of `B`'s own top-level pipes:
+    `A | B1 | B2` is read `(A | B1) | B2`.)  No restriction to printed forms. -/
+theorem C15_pipe_of_any_expressions (As Bs : List Token) (eA eB pt : Token) (a b : Node N) (total : Nat)
+    (heA : eA.ty = .eof) (heB : eB.ty = .eof) (hpt : pt.ty = .pipe)
+    (hnA : ∀ t ∈ As, t.ty ≠ .eof) (hnB : ∀ t ∈ Bs, t.ty ≠ .eof)
+    (hA : parseTokens Generated.table (As ++ [eA]) = .ok a) (hB : parseTokens Generated.table (Bs ++ [eB]) = .ok b)
+    (htoks : Lexer.TokensOK total (As ++ pt :: (Bs ++ [eB]))) :
+    ∃ X, parseTokens Generated.table (As ++ pt :: (Bs ++ [eB])) = .ok X ∧
+      ∀ (ft : List FnEntry) (d : Val N), eval ft X d = (eval ft a d >>= fun v => eval ft b v) := by
+  have hsd := sameDecisions_of_tableOK Generated.table Spec.table generated_table_ok spec_table_ok
+  rw [parseTokens_congr hsd] at hA hB ⊢
+  obtain ⟨X, hR, hev⟩ := Parser.pipe_of_parses heA heB hpt (parse_consumes_all heA hnA hA) (parse_consumes_all heB hnB hB)
+  exact ⟨X, Parser.parseTokens_of_R hR ⟨eB, [], rfl, heB⟩ htoks, hev⟩
+
+end AnyExpressions
 
 end Jmes.Props
